@@ -35,6 +35,8 @@ func runConnWrite(id string, toks []string) (res string) {
 		return runWriteAcrossSwitch(toks)
 	case "cwrace":
 		return runReadWriteRace(toks)
+	case "cwclose":
+		return runWritersAndClose(toks)
 	}
 	k := sharedKey(toks[1])
 	var pref []int
@@ -460,4 +462,72 @@ func runWriteInReadDeadlineWindow(toks []string) string {
 		return "payloads-differ"
 	}
 	return "ok"
+}
+
+
+// case: cwclose <key> <payload> <payload> ...
+// The first writer is in flight at the socket (it holds the write lock), the others wait for the lock, then the connection
+// is closed from another goroutine (the server gives the connection up, the transport stops), then the socket lets the first
+// write go.  Whatever reached the peer before the end of the stream must be frames of the session, in counter order.
+func runWritersAndClose(toks []string) string {
+	k := sharedKey(toks[1])
+	sc, con, ctx := newScripted(nil)
+	sc.gate = make(chan *gatedWrite, 64)
+	sess, err := newServerSession(k)
+	if err != nil {
+		return "setup-error"
+	}
+	s := ctx.GetSessionForConnection(sc)
+	s.SetCryptographer(sess)
+	s.Decrypter()
+	var wg sync.WaitGroup
+	write := func(b []byte) {
+		wg.Add(1)
+		go func() {
+			defer wg.Done()
+			defer func() { recover() }() // a write that finds the session gone may panic: it sends nothing
+			con.Write(b)
+		}()
+	}
+	write(unhex(toks[2]))
+	var first *gatedWrite
+	select {
+	case first = <-sc.gate:
+	case <-time.After(2 * time.Second):
+		return "stuck-first"
+	}
+	for _, p := range toks[3:] {
+		write(unhex(p))
+		time.Sleep(2 * time.Millisecond)
+	}
+	wg.Add(1)
+	go func() {
+		defer wg.Done()
+		con.Close()
+	}()
+	time.Sleep(5 * time.Millisecond)
+	close(first.release)
+	done := make(chan struct{})
+	go func() { wg.Wait(); close(done) }()
+	for fin := false; !fin; {
+		select {
+		case g := <-sc.gate:
+			close(g.release)
+		case <-done:
+			fin = true
+		case <-time.After(3 * time.Second):
+			return "stuck"
+		}
+	}
+	sc.mu.Lock()
+	var stream []byte
+	for _, w := range sc.written {
+		stream = append(stream, w...)
+	}
+	sc.mu.Unlock()
+	pt, ok := refOpenAll(refKey(k[:], "Control-Read-Encryption-Key"), 0, stream)
+	if !ok {
+		return fmt.Sprintf("undecryptable bytes=%d", len(stream))
+	}
+	return fmt.Sprintf("ok plain=%d", len(pt))
 }
